@@ -470,6 +470,7 @@ func (w *World) opMintQuote(op Op) *Event {
 	}
 	since := w.Net.Seq()
 	var q storage.MintQuote
+	id := w.Reg.NextQuoteID("mq")
 	w.announce("mintquote", map[string]any{"amt": int(amt % (1 << 30)), "big": "", "lock": lock, "unit": unit})
 	err, pan, msg := w.guard(func() error {
 		var e error
@@ -477,7 +478,6 @@ func (w *World) opMintQuote(op Op) *Event {
 		return e
 	})
 	a, bg, _ := amtFacts(amt)
-	id := fmt.Sprintf("mq%d", len(w.Reg.MintQ)+1)
 	r := finish(map[string]any{"q": ""}, err, pan, msg)
 	if err == nil && !pan {
 		w.Reg.MintQ[id] = &MintQuoteInfo{ID: id, Real: q.Id, Hash: q.PaymentHash, Request: q.PaymentRequest, Amt: amt, LockKey: lock}
@@ -701,12 +701,12 @@ func (w *World) opMeltQuote(op Op) *Event {
 		req.Options = map[string]nut05.MppOption{"mpp": {AmountMsat: msat}}
 	}
 	var q storage.MeltQuote
+	id := w.Reg.NextQuoteID("lq")
 	err, pan, msg := w.guard(func() error {
 		var e error
 		q, e = w.API().RequestMeltQuote(req)
 		return e
 	})
-	id := fmt.Sprintf("lq%d", len(w.Reg.MeltQ)+1)
 	r := finish(map[string]any{"q": "", "amt": 0, "reserve": 0}, err, pan, msg)
 	if err == nil && !pan {
 		w.Reg.MeltQ[id] = &MeltQuoteInfo{ID: id, Real: q.Id, Hash: hash, Request: request, Amt: q.Amount, Reserve: q.FeeReserve, Kind: kind, Target: target, Msat: msat}
